@@ -36,11 +36,11 @@ def compile_corpus(tier, seed):
         if expect == "accept" and rc != 0:
             res["broken"].append({"kind": "corpus", "program": name, "excerpt": "twin program no longer compiles: " + o[-600:]})
         elif expect == "reject" and rc == 0:
-            what = "unchecked entry point callable from safe code" if name.startswith("unsafe_") else ("non-atomic counter value sent to another thread" if "send" in name else "borrowed data escapes its borrow")
+            what = "unchecked entry point callable from safe code" if name.startswith("unsafe_") else "a trait whose implementors the unchecked code trusts can be named or implemented by client code" if name.startswith("sealed_") else ("non-atomic counter value sent to another thread" if "send" in name else "borrowed data escapes its borrow")
             res["violations"].append({"what": "api corpus %s" % name, "observed": "rustc accepts the program (%s)" % what, "expected": "compile error",
                                       "program": open(os.path.join(V.HARNESS, "api_corpus", name + ".rs")).read()})
         elif expect == "reject":
-            want = {"E0133"} if name.startswith("unsafe_") else ({"E0277"} if "send" in name else BORROW)
+            want = {"E0133"} if name.startswith("unsafe_") else {"E0603", "E0433", "E0432", "E0405", "E0277", "E0046"} if name.startswith("sealed_") else ({"E0277"} if "send" in name else BORROW)
             if not (set(codes) & want):
                 res["broken"].append({"kind": "corpus", "program": name, "excerpt": "rejected for an unexpected reason %s: %s" % (codes, o[-400:])})
     return res
@@ -52,12 +52,14 @@ SPEC = {
     "tie": ["props/C17_tieA.vo"],
     "gen_items": ["src/**:pub fn table"],
     "tieA_required": True,
+    "drivers": [{"driver": "adversary", "profiles": ["debug", "release"]}],
     "custom": compile_corpus,
     "exhaustive": True,
     "rule": ("(a) every `pub fn` of /repo/src (test modules excluded) with its `unsafe` qualifier, `# Safety` doc section and `_unchecked` suffix, re-read on every run (complete enumeration of a "
              "finite domain); (b) a corpus of client programs compiled by rustc against the library built from the working tree: escape attempts through borrowed+clone, slice, try_slice, slice_ref, "
-             "split, trim, split_once, as_borrowed, into_borrowed, mutate guard, as_str, HipPath/HipOsStr, Cow, to_ascii_*, each with a twin using into_owned that must compile; calls of every "
-             "unchecked entry point outside `unsafe`; Rc-backed value sent to a thread. distinct_nontrivial = programs compiled."),
+             "split, trim, split_once, as_borrowed, into_borrowed, mutate guard, as_str, HipPath/HipOsStr, Cow, to_ascii_*, each with a twin using into_owned that must compile; naming / implementing the sealed traits (pattern traits incl. the full smuggling exploit, Vector, MutVector, Backend); calls of every "
+             "unchecked entry point outside `unsafe`; Rc-backed value sent to a thread; (c) `adversary` driver: the safe range-taking entry points (HipByt/HipStr slice, try_slice; ThinVec/InlineVec drain, extend_from_within) called with safe-code "
+             "RangeBounds implementations whose answers change between queries, in debug and release. distinct_nontrivial = programs compiled + adversarial calls."),
     "assumptions": [
         "(a) is a textual criterion: an entry point that trusts its caller is recognised by its `# Safety` section or `_unchecked` suffix; a function that trusts its caller silently is outside this criterion and is covered only through the operation-level theorems of the Bytes/Vec machines (every SAFE operation keeps the invariant for ALL arguments)",
         "soundness of Rust's borrow checker and type system is trusted; the corpus tests that the SIGNATURES make rustc reject the escapes",
